@@ -75,6 +75,11 @@ def corpus():
     add("c-shed-after-errgone", [conn("u1", "e1"), conn("u2", "e1"), O("goaway", "u1"), O("errgone", "u1"), O("shed", n=2)])
     add("c-server-shutdown", three + [O("goaway", "u2"), O("errgone", "u2"), O("server_shutdown"), conn("u4", "e1"),
                                       O("client_shutdown", "u1")])
+    # a half-open client connection on the upstream port makes the HTTP part of the shutdown run into its (short) grace
+    # period: the upstream connections are closed and deregistered all the same
+    add("c-server-shutdown-straggler", three + [O("straggler"), O("server_shutdown", ms=300)])
+    add("c-server-shutdown-straggler-auth", [conn("u1", "e1", tok="exp", ahead=60000), conn("u2", "ep-2", tok="noexp"), O("straggler"),
+                                             O("server_shutdown", ms=200)], auth=True)
     add("c-errgone-without-goaway", [conn("u1", "e1"), conn("u2", "e1"), O("errgone", "u2"), O("errgone", "u1", stale=True),
                                      O("client_shutdown", "u1"), O("client_shutdown", "u2")])
     add("c-errgone-sweeps-siblings", [conn("u1", "e1"), conn("u2", "e1"), conn("u3", "e1"), O("goaway", "u1"), O("goaway", "u2"),
@@ -155,7 +160,10 @@ def gen_case(rng, cid):
     expset = {u for (u, _, ex) in conns if ex}
     fin = rng.random()
     if fin < 0.22:
-        ops.append(O("server_shutdown"))
+        if rng.random() < 0.3:
+            ops += [O("straggler"), O("server_shutdown", ms=rng.choice([150, 300]))]
+        else:
+            ops.append(O("server_shutdown"))
         if rng.random() < 0.5:
             ops.append(conn("u9", eps[0], "real", "noexp" if auth else None))
     elif fin < 0.3:
